@@ -189,7 +189,7 @@ Lemma Inv_api_remove_interface ex s i c : Inv (api_remove_interface ex s i c).
 Proof. unfold api_remove_interface. repeat first [apply Inv_remove_cp | inv_step]. Qed.
 
 Lemma Inv_api_remove_child p i c : Inv (api_remove_child p i c).
-Proof. unfold api_remove_child. repeat first [apply Inv_remove_cp | inv_step]. Qed.
+Proof. unfold api_remove_child. repeat first [apply Inv_remove_cp | apply Inv_disconnect_peers_of | inv_step]. Qed.
 
 Lemma Inv_api_unpeer_with xy ca cb : Inv (api_unpeer_with xy ca cb).
 Proof. unfold api_unpeer_with. repeat first [apply Inv_remove_cp | inv_step]. Qed.
